@@ -966,8 +966,12 @@ impl FutWait {
 
 impl Wait for FutWait {
     #[cold]
-    fn wait(&self, _seq: usize, _w_pos: &AtomicUsize, _wc: &AtomicUsize) {
-        panic!("Somehow normal wait got called in futures queue");
+    fn wait(&self, seq: usize, w_pos: &AtomicUsize, wc: &AtomicUsize) {
+        // reached through the blocking recv() of the futures receivers; no task parks
+        // here, so poll the condition
+        while !check(seq, w_pos, wc) {
+            yield_now();
+        }
     }
 
     fn notify(&self) {
